@@ -1,6 +1,7 @@
 /*! Window functions
 
-All functions are periodic, not symmetric.(?)
+All functions are symmetric (first tap equals last), as needed for designing
+linear phase FIR filters.
 
 <https://en.wikipedia.org/wiki/Window_function>
 <https://en.wikipedia.org/wiki/Spectral_leakage>
@@ -113,7 +114,10 @@ fn blackman(m: usize) -> Window {
     let mut b = Vec::with_capacity(m);
     for n in 0..m {
         let n = n as Float;
-        let m = m as Float;
+        // Symmetric window, like hamming() above: the last tap mirrors the
+        // first. With the periodic form (dividing by m), FIR taps designed
+        // with this window come out asymmetric, and with the wrong DC gain.
+        let m = (m.max(2) - 1) as Float;
 
         // Parameters.
         //
@@ -151,7 +155,8 @@ fn blackman_harris(m: usize) -> Window {
     let mut b = Vec::with_capacity(m);
     for n in 0..m {
         let n = n as Float;
-        let m = m as Float;
+        // Symmetric, see blackman().
+        let m = (m.max(2) - 1) as Float;
 
         // Formula.
         let t1 = 2.0 * PI * n / m;
